@@ -433,6 +433,17 @@ func (c *Controller) flushEstablishedLink(el *establishedLink, hasNextLink bool)
 	}()
 }
 
+// handleLinkClosed removes an established link whose stream accept loop exited
+// from the link tables, if it is still registered.
+func (c *Controller) handleLinkClosed(el *establishedLink) {
+	c.bcast.HoldLockMaybeAsync(func(broadcast func(), getWaitCh func() <-chan struct{}) {
+		if cel, ok := c.links[el.lnk.GetUUID()]; ok && cel == el {
+			c.flushEstablishedLink(el, false)
+			broadcast()
+		}
+	})
+}
+
 // loggerForLink wraps a logger with fields identifying the link.
 func (c *Controller) loggerForLink(lnk link.Link) *logrus.Entry {
 	return c.le.
